@@ -14,6 +14,7 @@ import (
 // C10: blank = absent = GTFS default; fill-in and inheritance rules apply, nothing else.
 
 type CaseC10 struct {
+	vt.Env
 	Feed     *sgen.Feed // blank cells are already part of the typed feed
 	File     string
 	Column   string
@@ -143,8 +144,13 @@ func cloneFeed(f *sgen.Feed) *sgen.Feed {
 	return cloneVia(f)
 }
 
-func TestC10(t *testing.T) {
-	rapid.Check(t, func(t *rapid.T) {
+func TestC10(t *testing.T) { rapid.Check(t, func(t *rapid.T) { propC10(t, false) }) }
+
+// TestC10Large runs the whole matrix on base feeds that are always inflated (thousands of stops, hundreds of trips).
+func TestC10Large(t *testing.T) { rapid.Check(t, func(t *rapid.T) { propC10(t, true) }) }
+
+func propC10(t *rapid.T, large bool) {
+	{
 		o := sgen.DefaultGenOpts()
 		o.MinTrips, o.MinStopTimes = 1, 1
 		if rapid.IntRange(0, 49).Draw(t, "large") < map[bool]int{true: 10, false: 1}[tierThorough()] {
@@ -152,6 +158,11 @@ func TestC10(t *testing.T) {
 		}
 		o.ExplicitDefaults = rapid.Bool().Draw(t, "explicitElsewhere")
 		base, _ := sgen.GenFeed(t, o)
+		if large || rapid.IntRange(0, 39).Draw(t, "inflate") == 17 {
+			// size class: thousands of stops (stops.txt beyond 64 KiB), hundreds of trips
+			base = sgen.InflateFeed(base, rapid.SampledFrom([]int{1100, 2500, 4200}).Draw(t, "inflateTo"))
+			c10Rec.Class("inflated-base-feed")
+		}
 		maskSeed := rapid.Uint64().Draw(t, "mixMask")
 		inheritFirst := rapid.Bool().Draw(t, "inheritFirst")
 		for ci := range c10Cols {
@@ -180,11 +191,14 @@ func TestC10(t *testing.T) {
 				c10Rec.Eval(cls)
 				if blanked > 0 {
 					c10Rec.NontrivialCase(vt.Fingerprint(c), func() any {
+						if n > 60 {
+							return map[string]any{"File": c.File, "Column": c.Column, "Spelling": c.Spelling, "Inherit": c.Inherit, "rows": n, "blank_cells": blanked}
+						}
 						return map[string]any{"File": c.File, "Column": c.Column, "Spelling": c.Spelling, "Inherit": c.Inherit, "rows": n, "blank_cells": blanked, "table": f.Tables().Get(c.File)}
 					})
 				}
 				vt.Run(t, c10Rec, c, checkC10)
 			}
 		}
-	})
+	}
 }
